@@ -32,16 +32,16 @@ var (
 )
 
 type run struct {
-	Test     string // test function name
-	Quick    int    // rapid checks in quick tier (0: run once without rapid flags)
-	Thorough int    // rapid checks per shard in thorough tier
-	Shards   int    // thorough shards (0 => 16)
-	Race     bool   // use the -race binary in the thorough tier
-	QuickRace bool  // use the -race binary in the quick tier as well
-	Fuzz     bool   // native fuzz target: thorough only, runs for FuzzTime
-	FuzzTime string
+	Test         string // test function name
+	Quick        int    // rapid checks in quick tier (0: run once without rapid flags)
+	Thorough     int    // rapid checks per shard in thorough tier
+	Shards       int    // thorough shards (0 => 16)
+	Race         bool   // use the -race binary in the thorough tier
+	QuickRace    bool   // use the -race binary in the quick tier as well
+	Fuzz         bool   // native fuzz target: thorough only, runs for FuzzTime
+	FuzzTime     string
 	ThoroughOnly bool
-	Timeout  time.Duration // per process; default 8m quick / 40m thorough
+	Timeout      time.Duration // per process; default 8m quick / 40m thorough
 }
 
 type prop struct {
